@@ -133,7 +133,10 @@ def dbgStr : Option Dbg → String
   | some .invalidOperand => "invopnd"
   | some .other => "other"
 
-def callsStr (c : List Nat) : String :=
+/-- Stringer id 0 stands for a Stringer of the Go standard library (json.Number) whose calls the harness cannot log:
+it is left out of the printed call list on both sides -/
+def callsStr (c0 : List Nat) : String :=
+  let c := c0.filter (· != 0)
   if c.isEmpty then "-" else ",".intercalate (c.map toString)
 
 def outStr (o : ProcOut) : String :=
